@@ -650,112 +650,146 @@ impl<'a> Ex<'a> {
             let end: u128 = if i + 1 < starts.len() { starts[i + 1].0 as u128 } else { 1u128 << 64 };
             todo.push_back((starts[i].0, end, starts[i].1));
         }
-        let reps: Vec<u64> = starts.iter().map(|s| s.0).collect();
         let mut done: Vec<(u64, u128, Sig, bool, Option<Rc<Tree>>)> = vec![];
         let mut splits = 0;
-        while let Some((s, e, so)) = todo.pop_front() {
-            // retry piece (the word is discarded and drawn again)?
-            if Self::looks_retry(&so, &base) {
-                let others: Vec<u64> = reps.iter().cloned().filter(|r| *r != s).collect();
-                let span = e - s as u128;
-                let probes: Vec<u64> = [0u128, span / 4, span / 2, span / 2 + span / 4, span - 1].iter().map(|o| (s as u128 + o) as u64).collect();
-                let mut all = true;
-                for (i, w) in probes.iter().enumerate() {
-                    // full test at both ends and in the middle, light test elsewhere
-                    let ok = if i % 2 == 0 { self.retry_word(pre, *w, &base, &others) } else { Self::looks_retry(&self.sig(pre, *w), &base) };
-                    if !ok {
-                        all = false;
-                        if i > 0 {
-                            // the piece is not homogeneous: cut it where the behaviour stops being "retry"
-                            let (mut lo, mut hi) = (s, *w);
-                            while hi - lo > 1 {
-                                let m = lo + (hi - lo) / 2;
-                                if Self::looks_retry(&self.sig(pre, m), &base) {
-                                    lo = m
-                                } else {
-                                    hi = m
-                                }
-                            }
+        // candidate retry pieces (the word seems to be discarded and drawn again) are decided after the others
+        let mut cands: VecDeque<(u64, u128, Sig)> = VecDeque::new();
+        let mut force_normal: Vec<u64> = vec![];
+        loop {
+            while let Some((s, e, so)) = todo.pop_front() {
+                if Self::looks_retry(&so, &base) && !force_normal.contains(&s) {
+                    cands.push_back((s, e, so));
+                    continue;
+                }
+                let measure = (e - s as u128) as f64 / TWO64;
+                let last = (e - 1) as u64;
+                let mid = s + ((e - s as u128) / 2) as u64;
+                // merge with an explored sibling that behaves identically?
+                let mut child: Option<Rc<Tree>> = None;
+                let sib: Option<Rc<Tree>> = done.iter().find(|x| !x.3 && x.2 == so).and_then(|x| x.4.clone());
+                if let Some(t) = sib {
+                    let mut lv = vec![];
+                    Self::leaves_of(&t, &mut vec![], &mut lv);
+                    if !lv.is_empty() && self.disagrees(pre, s, &lv).is_none() && self.disagrees(pre, last, &lv).is_none() && self.disagrees(pre, mid, &lv).is_none() {
+                        self.ct.merges += 1;
+                        child = Some(t);
+                    }
+                }
+                if let Some(t) = child {
+                    done.push((s, e, so, false, Some(t)));
+                    continue;
+                }
+                pre.push(s);
+                let r = self.explore(pre, w * measure);
+                pre.pop();
+                let t = r?;
+                // validate the piece against its own subtree at the far end and in the middle
+                let mut lv = vec![];
+                Self::leaves_of(&t, &mut vec![], &mut lv);
+                let mut end = e;
+                loop {
+                    let last = (end - 1) as u64;
+                    let mid = s + ((end - s as u128) / 2) as u64;
+                    let mut bad: Option<(u64, usize)> = None;
+                    for tw in [last, mid] {
+                        if tw == s {
+                            continue;
+                        }
+                        if let Some(i) = self.disagrees(pre, tw, &lv) {
+                            bad = Some((tw, i));
+                            break;
+                        }
+                    }
+                    match bad {
+                        None => break,
+                        Some((tw, i)) => {
                             splits += 1;
                             self.ct.splits += 1;
                             if splits > 64 {
                                 return Err(format!("draw {}: more than 64 piece splits", d));
                             }
+                            let one = vec![lv[i].clone()];
+                            let (mut lo, mut hi) = (s, tw); // agrees at lo, disagrees at hi
+                            while hi - lo > 1 {
+                                let m = lo + (hi - lo) / 2;
+                                if self.disagrees(pre, m, &one).is_none() {
+                                    lo = m
+                                } else {
+                                    hi = m
+                                }
+                            }
                             self.note_boundary(hi);
                             let so2 = self.sig(pre, hi);
-                            todo.push_front((hi, e, so2));
-                            todo.push_front((s, hi as u128, so));
+                            todo.push_front((hi, end, so2));
+                            end = hi as u128;
                         }
-                        break;
                     }
                 }
-                if all {
-                    self.ct.retry_pieces += 1;
-                    done.push((s, e, so, true, None));
-                    continue;
-                }
-                if todo.front().map(|f| f.0 == s).unwrap_or(false) {
-                    continue;
-                }
+                done.push((s, end, so, false, Some(t)));
             }
-            let measure = (e - s as u128) as f64 / TWO64;
-            let last = (e - 1) as u64;
-            let mid = s + ((e - s as u128) / 2) as u64;
-            // merge with an explored sibling that behaves identically?
-            let mut child: Option<Rc<Tree>> = None;
-            let sib: Option<Rc<Tree>> = done.iter().find(|x| !x.3 && x.2 == so).and_then(|x| x.4.clone());
-            if let Some(t) = sib {
-                let mut lv = vec![];
-                Self::leaves_of(&t, &mut vec![], &mut lv);
-                if !lv.is_empty() && self.disagrees(pre, s, &lv).is_none() && self.disagrees(pre, last, &lv).is_none() && self.disagrees(pre, mid, &lv).is_none() {
-                    self.ct.merges += 1;
-                    child = Some(t);
-                }
-            }
-            let merged = child.is_some();
-            let t = match child {
-                Some(t) => t,
-                None => {
-                    pre.push(s);
-                    let r = self.explore(pre, w * measure);
-                    pre.pop();
-                    r?
-                }
+            // decide the candidates: a retry word followed by ANY explored path of this node must end where that path ends
+            let (s, e, so) = match cands.pop_front() {
+                None => break,
+                Some(c) => c,
             };
-            if merged {
-                done.push((s, e, so, false, Some(t)));
+            let mut node_leaves: Vec<(Vec<u64>, u32)> = vec![];
+            for p in done.iter().filter(|p| !p.3) {
+                let mut lv = vec![];
+                Self::leaves_of(p.4.as_ref().unwrap(), &mut vec![p.0], &mut lv);
+                node_leaves.extend(lv);
+            }
+            if node_leaves.is_empty() {
+                // nothing to compare with: explore it as an ordinary piece
+                force_normal.push(s);
+                todo.push_back((s, e, so));
                 continue;
             }
-            // validate the piece against its own subtree at the far end and in the middle
-            let mut lv = vec![];
-            Self::leaves_of(&t, &mut vec![], &mut lv);
-            let mut end = e;
-            loop {
-                let last = (end - 1) as u64;
-                let mid = s + ((end - s as u128) / 2) as u64;
-                let mut bad: Option<(u64, usize)> = None;
-                for tw in [last, mid] {
-                    if tw == s {
-                        continue;
+            let span = e - s as u128;
+            let probes: Vec<u64> = [0u128, span - 1, span / 2, span / 4, span / 2 + span / 4].iter().map(|o| (s as u128 + o) as u64).collect();
+            let mut verdict_retry = true;
+            for (i, wd) in probes.iter().enumerate() {
+                if i > 0 && *wd == s {
+                    continue;
+                }
+                // all leaves at the two ends and in the middle, the two continuations elsewhere
+                let mut bad = if i < 3 { self.disagrees(pre, *wd, &node_leaves) } else if Self::looks_retry(&self.sig(pre, *wd), &base) { None } else { Some(usize::MAX) };
+                if bad.is_none() && i < 3 {
+                    // a true retry can be repeated any number of times (a loop with a hidden counter cannot)
+                    for reps in [2usize, 13] {
+                        for (li, (path, out)) in node_leaves.iter().enumerate().take(3) {
+                            for _ in 0..reps {
+                                pre.push(*wd);
+                            }
+                            pre.extend_from_slice(path);
+                            let o = self.obs(pre);
+                            pre.truncate(d);
+                            if o.out != *out || o.cons as usize != d + reps + path.len() {
+                                bad = Some(li);
+                            }
+                        }
                     }
-                    if let Some(i) = self.disagrees(pre, tw, &lv) {
-                        bad = Some((tw, i));
-                        break;
+                    if bad.is_some() && i > 0 {
+                        return Err(format!("draw {}: a piece that discards single words does not discard repeated ones", d));
                     }
                 }
-                match bad {
-                    None => break,
-                    Some((tw, i)) => {
+                if let Some(li) = bad {
+                    verdict_retry = false;
+                    if i == 0 {
+                        force_normal.push(s);
+                        todo.push_back((s, e, so));
+                    } else {
+                        // not homogeneous: cut where the behaviour stops being "retry"
                         splits += 1;
                         self.ct.splits += 1;
                         if splits > 64 {
                             return Err(format!("draw {}: more than 64 piece splits", d));
                         }
-                        let one = vec![lv[i].clone()];
-                        let (mut lo, mut hi) = (s, tw); // agrees at lo, disagrees at hi
+                        let one: Vec<(Vec<u64>, u32)> = if li == usize::MAX { vec![] } else { vec![node_leaves[li].clone()] };
+                        let (mut lo, mut hi) = (s, *wd);
                         while hi - lo > 1 {
                             let m = lo + (hi - lo) / 2;
-                            if self.disagrees(pre, m, &one).is_none() {
+                            let ok = if one.is_empty() { Self::looks_retry(&self.sig(pre, m), &base) } else { self.disagrees(pre, m, &one).is_none() };
+                            if ok {
                                 lo = m
                             } else {
                                 hi = m
@@ -763,12 +797,16 @@ impl<'a> Ex<'a> {
                         }
                         self.note_boundary(hi);
                         let so2 = self.sig(pre, hi);
-                        todo.push_front((hi, end, so2));
-                        end = hi as u128;
+                        cands.push_front((s, hi as u128, so));
+                        todo.push_back((hi, e, so2));
                     }
+                    break;
                 }
             }
-            done.push((s, end, so, false, Some(t)));
+            if verdict_retry {
+                self.ct.retry_pieces += 1;
+                done.push((s, e, so, true, None));
+            }
         }
         done.sort_by(|a, b| a.0.cmp(&b.0));
         // the pieces must tile [0, 2^64)
